@@ -1194,7 +1194,6 @@ def m_int_unary(kind):
         if type(a) is not I:
             raise Unsupported(kind)
         lo, hi = st.itv[a.vid]
-        tlo, thi = E.ctx.int_range(dest_ty)
         if kind == "unsigned_abs":
             if lo >= 0:
                 r = (lo, hi)
